@@ -6,7 +6,7 @@ SRC = "insim_core/src/vehicle.rs"
 
 
 def translate():
-    src = strip_comments(read(SRC))
+    src = expand_repeat_arrays(subst_usize_consts(bytestr_to_arrays(strip_comments(read(SRC)))))
     enum_body = block_after(src, r"pub\s+enum\s+Vehicle\s*\{", SRC + ":enum Vehicle")
     variants = []
     for m in re.finditer(r"(?:#\[[^\]]*\]\s*)*([A-Z]\w*)\s*(\([^)]*\))?\s*,", enum_body):
@@ -17,7 +17,7 @@ def translate():
 
     # --- reader ---------------------------------------------------------------------------
     rd = block_after(src, r"impl\s+BinRead\s+for\s+Vehicle\s*\{", SRC + ":BinRead")
-    mt = block_after(rd, r"match\s*\(\s*bytes\s*,\s*is_builtin\s*\)\s*\{", SRC + ":BinRead:match")
+    mt = block_after(rd, r"match\s*\(\s*&?bytes\s*,\s*is_builtin\s*\)\s*\{", SRC + ":BinRead:match")
     arms = re.findall(r"\(\s*(\[[^\]]*\]|_)\s*,\s*(true|false|_)\s*\)\s*=>\s*([^\n]+?),\s*\n", mt + "\n")
     if not arms:
         raise TranslateError(SRC + ":BinRead:match", "no arms read")
@@ -53,14 +53,19 @@ def translate():
     wrows = []
     seen_mod = seen_unknown = False
     where = SRC + ":BinWrite:match"
-    for m in re.finditer(r"Vehicle::(\w+)\s*(\(\s*(\w+)\s*\))?\s*=>\s*([^\n]+?)\.write_options\(writer,\s*endian,\s*args\),", wm):
+    arms_w = list(re.finditer(r"Vehicle::(\w+)\s*(\(\s*(\w+)\s*\))?\s*=>\s*([^\n]+?)\.write_options\(writer,\s*endian,\s*args\),", wm))
+    hoisted = re.search(r"let\s+(\w+)(?:\s*:\s*\[u8;\s*\w+\])?\s*=\s*match\s+self\s*\{", wr) and re.search(r"\}\s*;\s*(\w+)\.write_options\(writer,\s*endian,\s*args\)", wr)
+    if hoisted:
+        # `let code = match self { V => [..], Mod(m) => return m.write_options(..), .. }; code.write_options(..)`
+        arms_w = list(re.finditer(r"Vehicle::(\w+)\s*(\(\s*(\w+)\s*\))?\s*=>\s*(?:return\s+)?([^\n]+?)(?:\.write_options\(writer,\s*endian,\s*args\))?,\s*\n", wm + "\n"))
+    for m in arms_w:
         name, _, bind, expr = m.groups()
         if name == "Mod":
             if expr.strip() != bind:
                 raise TranslateError(where, f"Mod arm writes {expr!r}, expected the u32 itself")
             seen_mod = True
             continue
-        lm = re.fullmatch(r"\[([^\]]*)\]", expr.strip())
+        lm = re.fullmatch(r"\[([^\]]*)\]", re.sub(r"_u8\b", "", expr.strip()))
         if not lm:
             raise TranslateError(where, f"arm {name}: not an array literal: {expr!r}")
         bs = [byte_lit(t, where) for t in lm.group(1).split(",")]
@@ -78,7 +83,7 @@ def translate():
     # --- Display --------------------------------------------------------------------------
     dp = block_after(src, r"impl\s+std::fmt::Display\s+for\s+Vehicle\s*\{", SRC + ":Display")
     drows = []
-    for m in re.finditer(r'Vehicle::(\w+)\s*=>\s*write!\(f,\s*"([^"]*)"\)', dp):
+    for m in re.finditer(r'Vehicle::(\w+)\s*=>\s*(?:write!\(f,\s*|f\.write_str\()"([^"{}]*)"\)', dp):
         if m.group(1) != "Unknown":
             drows.append((m.group(1), m.group(2)))
     if sorted(n for n, _ in drows) != sorted(builtins):
